@@ -309,14 +309,9 @@ PROBE_NOTE = ("%s\n(* %s: the front end could not read the dispatch (%s).\n"
               "   The implementation was evaluated at %d candidate run numbers (every integer literal and integer constant of\n"
               "   the source file, each +-1, and 0, 1, u32::MAX-1, u32::MAX); at each one the parsed table whose COMPLETE content\n"
               "   reproduces the implementation's answer was identified.  ASSUMPTION: the dispatch is constant between\n"
-              "   consecutive candidates; the differential run (arm boundaries +-2 and a stride of runs) checks it. *)\n")
-
-
-def unique_choice(cands, what, run):
-    cands = sorted(set(cands), key=lambda c: tuple(-1 if x is None else x for x in c))
-    if not cands:
-        raise GenError("%s: the implementation's answer for run %d is reproduced by no parsed table" % (what, run))
-    return cands
+              "   consecutive candidates; the differential run (arm boundaries +-2 and a stride of runs) checks it.\n"
+              "   Where the implementation has no map at all (every entry an error) a dispatch hidden behind another one's error\n"
+              "   cannot be observed: a reconstructed dispatch says None there. *)\n")
 
 
 # ---------------------------------------------------------------------------------------------
